@@ -15,8 +15,8 @@ except Exception:
 checks = []
 for p in props:
     pid = p["id"]
-    if pid not in cfg:
-        continue
+    if pid not in cfg or pid in na_reasons:
+        continue  # not built, or built but not claimed yet (listed in not_applicable.json)
     c = cfg[pid]
     checks.append({
         "property_id": pid,
@@ -30,7 +30,7 @@ for p in props:
         "technique": c["technique"],
     })
 na = [{"property_id": p["id"], "reason": na_reasons.get(p["id"], "monitor not built yet in this round (planned: see DESIGN.md §6)")}
-      for p in props if p["id"] not in cfg]
+      for p in props if p["id"] not in cfg or p["id"] in na_reasons]
 hooks_commits = []
 try:
     hooks_commits = [l.strip() for l in open(os.path.join(R, "hook_commits.txt")) if l.strip()]
@@ -47,7 +47,7 @@ man = {
         "add_only": True,
     },
     "engines": [
-        {"name": "harness", "path": "/verif/harness", "serves_properties": sorted(cfg.keys()),
+        {"name": "harness", "path": "/verif/harness", "serves_properties": sorted(k for k in cfg.keys() if k not in na_reasons),
          "kind_free_text": "Go test binaries (one package per property) built from /repo's working tree; monitors: reference-model differential oracles, offline history checkers, porcupine, race detector (driver parses GORACE logs against per-property mechanism allowlists), crash/hang watchdogs"},
     ],
     "checks": checks,
